@@ -194,6 +194,8 @@ func realSweep(family string, n int, seed uint64, args []string) int {
 		realDigest(r, n, sw)
 	case "conc":
 		realConc(r, n, sw)
+	case "bigprot":
+		bigProtected(sw)
 	case "entropy":
 		entropyFixed(sw)
 		realEntropy(r, n, sw)
